@@ -97,7 +97,7 @@ class Prop(PropBase):
             cls = rng.choice(sigs.CLASSES)
             L = rng.choice([0, 1, 2, 3, 5, 7, 16, 17, 25, 64, 97, 100, 1000, rng.randint(0, 3000)])
             if i % 150 == 7:
-                L = rng.choice([100003, 262144, 1 << 20])        # long records (accumulated rounding, narrow intermediates)
+                L = rng.choice([100003, 262144, 999983])        # long records (below the 10^6 element-label stride of the index encoding) (accumulated rounding, narrow intermediates)
             rate = rng.choice(RATES)
             t0 = rng.choice(sigs.T0S + [None])
             nops = rng.choice([1, 1, 2, 3, rng.randint(1, maxops)])
